@@ -38,5 +38,7 @@ FLOORS = {"cache-file": 20, "registry-json": 60, "record-header": 7, "multiaddr"
 
 
 def run(R):
+    # formatter / parser pair of the registry file: what save() writes is what load() parses (the file is replaced whole)
+    R.whole_file_write("C17.registry.whole", "ant_service_management::NodeRegistry::save", "NodeRegistry::save replaces the registry file whole")
     for name, entries in ENTRIES.items():
         R.no_panic_reach("C17." + name, entries, suppress=SUPPRESS, floor_bodies=FLOORS.get(name, 1))
